@@ -90,18 +90,25 @@ type tmplSet interface {
 	render(name string) (string, error)
 }
 
-type hSet struct{ t *htmpl.Template }
+type hSet struct {
+	t      *htmpl.Template
+	direct bool // a View result is the end product: executed as handed out, like a caller does
+}
 type tSet struct{ t *ttmpl.Template }
 
 func (s hSet) lookup(n string) bool { return s.t != nil && s.t.Lookup(n) != nil }
 func (s tSet) lookup(n string) bool { return s.t != nil && s.t.Lookup(n) != nil }
 func (s hSet) render(n string) (string, error) {
-	c, err := s.t.Clone() // observe without marking the provider's template as executed
-	if err != nil {
-		c = s.t
+	c := s.t
+	if !s.direct {
+		// Base and Layout results are the provider's own cached layers, which it clones to
+		// build the next layer: observe them without marking them as executed
+		if cl, err := s.t.Clone(); err == nil {
+			c = cl
+		}
 	}
 	var b bytes.Buffer
-	err = c.ExecuteTemplate(&b, n, nil)
+	err := c.ExecuteTemplate(&b, n, nil)
 	return b.String(), err
 }
 func (s tSet) render(n string) (string, error) {
@@ -128,7 +135,7 @@ func (p hProv) get(rq c19Req) (tmplSet, error) {
 	default:
 		t, err = p.p.View(rq.Layout, rq.View)
 	}
-	return hSet{t}, err
+	return hSet{t, rq.Kind == "View"}, err
 }
 
 func (p tProv) get(rq c19Req) (tmplSet, error) {
@@ -394,6 +401,6 @@ func init() {
 			"non-trivial = sequential case, or a concurrent case with a real scheduling decision; distinct = distinct (input, decision sequence)",
 		Real:        []string{"goathtml/ghprovider (Provider, TemplateLoader)", "goattext/gtprovider", "filesystem/fsloop.WalkFS", "memfs", "std html/template and text/template"},
 		Stub:        []string{"sync.Mutex -> simrt", "scheduler, clock"},
-		Assumptions: []string{"templates returned for Base and Layout are rendered through a Clone (html/template refuses to Clone a template after it was executed, and the provider clones its cached layers to build the next one)", "define bodies are plain text: no oracle depends on escaping"},
+		Assumptions: []string{"View results are executed as handed out; templates returned for Base and Layout are rendered through a Clone (html/template refuses to Clone a template after it was executed, and the provider clones its cached layers to build the next one)", "define bodies are plain text: no oracle depends on escaping"},
 	})
 }
